@@ -883,6 +883,15 @@ func runSync(name string, withF7 bool, tier string, seed uint64, out string) err
 		term, desc = runLateRequest(stats)
 		desc["index"] = -5
 		cs.add(term, desc, "sync-run", true)
+		term, desc = runCloseDuringResend(stats, false)
+		desc["index"] = -6
+		cs.add(term, desc, "sync-run", true)
+		term, desc = runCloseDuringResend(stats, true)
+		desc["index"] = -7
+		cs.add(term, desc, "sync-run", true)
+		term, desc = runPingAfterClose(stats)
+		desc["index"] = -8
+		cs.add(term, desc, "sync-run", true)
 	}
 	if withF7 {
 		var term string
@@ -1207,4 +1216,164 @@ func runLateRequest(stats map[string]int) (string, map[string]any) {
 	client.Close()
 	close(next)
 	return renderSched(rec, s, "requests written to the dying connection while the read routine goes offline")
+}
+
+// runCloseDuringResend (C12): a persisted publish is pending; the connection comes up and the
+// resend of it stalls in conn.Write (the broker stopped reading, no PauseTimeout). Close has to
+// return all the same (it takes connection control, which connect handed back before the
+// resends, and closes the connection under the stalled write), and so has ReadSlices.
+func runCloseDuringResend(stats map[string]int, disconnect bool) (string, map[string]any) {
+	rec := &syncRec{}
+	mqtt.VerifEvent = rec.hook
+	defer func() { mqtt.VerifEvent = defaultHook }()
+	log := &evlog{}
+	store := newSimStore(log)
+	stalled := make(chan struct{})
+	var onceS sync.Once
+	dialer := &simDialer{log: log}
+	dialer.onDial = func(id int) (*simConn, bool) {
+		if id != 0 || len(dialer.conns) != 0 {
+			return nil, false
+		}
+		c := &simConn{closedCh: make(chan struct{})}
+		sent := false
+		c.onRead = func(c *simConn, armed bool, want int) readAns {
+			if !sent {
+				sent = true
+				return readAns{kind: rData, data: []byte{0x20, 2, 0, 0}}
+			}
+			c.mu.Unlock()
+			<-c.closedCh
+			c.mu.Lock()
+			return readAns{kind: rClosed}
+		}
+		c.onWrite = func(c *simConn, p []byte) writeAns {
+			if p[0]>>4 == 3 {
+				onceS.Do(func() { close(stalled) })
+				c.mu.Unlock()
+				<-c.closedCh
+				c.mu.Lock()
+				return writeAns{kind: wClosed, n: 0}
+			}
+			return writeAns{kind: wOk, n: len(p)}
+		}
+		return c, true
+	}
+	cfg := mqtt.Config{Dialer: dialer.dial, AtLeastOnceMax: 4}
+	client, err := mqtt.InitSession("cdr", store, &cfg)
+	if err != nil {
+		panic(err)
+	}
+	s := &schedCalls{}
+	const limit = 5 * time.Second
+	waitP := s.start(2, func() error { _, err := client.PublishAtLeastOnce([]byte("x"), "t"); return err })
+	waitP(limit)
+	rres := make(chan error, 4)
+	next := make(chan struct{}, 4)
+	rg := make(chan int, 1)
+	go func() {
+		rg <- gid()
+		for range next {
+			rres <- safelyNow(func() error { _, _, err := client.ReadSlices(); return err })
+		}
+	}()
+	g := <-rg
+	after := false
+	waitR := func() bool {
+		select {
+		case err := <-rres:
+			s.note(g, 0, err, after)
+			return true
+		case <-time.After(limit):
+			s.note(g, 0, errHung, after)
+			stats["cdr:hung"]++
+			return false
+		}
+	}
+	next <- struct{}{}
+	if waitCh(stalled, limit) {
+		var waitK func(time.Duration) bool
+		if disconnect {
+			quit := make(chan struct{})
+			close(quit)
+			waitK = s.start(4, func() error { return client.Disconnect(quit) })
+		} else {
+			waitK = s.start(3, client.Close)
+		}
+		if !waitK(limit) {
+			stats["cdr:hung"]++
+		}
+		if waitR() { // the interrupted connect
+			after = true
+			next <- struct{}{}
+			waitR() // ErrClosed
+		}
+	} else {
+		client.Close()
+	}
+	close(next)
+	label := "Close while the resend of a pending publish is stalled in conn.Write"
+	if disconnect {
+		label = "Disconnect (closed quit) while the resend of a pending publish is stalled in conn.Write"
+	}
+	return renderSched(rec, s, label)
+}
+
+// runPingAfterClose (C12): after Close every call returns ErrClosed, also a Ping that finds the
+// ping slot taken by another Ping which is on its way to the very same answer. Ping A is parked
+// at the entry of its write (slot installed); Ping B runs meanwhile.
+func runPingAfterClose(stats map[string]int) (string, map[string]any) {
+	rec := &syncRec{}
+	var aGid int
+	parkA, aParked := make(chan struct{}), make(chan struct{})
+	var once sync.Once
+	mqtt.VerifEvent = func(site string, args ...int) {
+		rec.hook(site, args...)
+		if site == "w.enter" && aGid != 0 && gid() == aGid {
+			once.Do(func() { close(aParked); <-parkA })
+		}
+	}
+	defer func() { mqtt.VerifEvent = defaultHook }()
+	log := &evlog{}
+	store := newSimStore(log)
+	dialer := &simDialer{log: log}
+	dialer.onDial = func(id int) (*simConn, bool) { return nil, false }
+	cfg := mqtt.Config{Dialer: dialer.dial}
+	client, err := mqtt.InitSession("pac", store, &cfg)
+	if err != nil {
+		panic(err)
+	}
+	s := &schedCalls{}
+	const limit = 5 * time.Second
+	s.start(3, client.Close)(limit)
+	after := func(kind int, f func() error) func(time.Duration) bool {
+		w := s.start(kind, f)
+		return func(l time.Duration) bool {
+			ok := w(l)
+			s.mu.Lock()
+			s.calls[len(s.calls)-1].afterClose = true
+			s.mu.Unlock()
+			return ok
+		}
+	}
+	gch := make(chan int, 1)
+	doneA := make(chan error, 1)
+	go func() {
+		g := gid()
+		aGid = g
+		gch <- g
+		doneA <- safelyNow(func() error { return client.Ping(nil) })
+	}()
+	ga := <-gch
+	if waitCh(aParked, limit) {
+		after(5, func() error { return client.Ping(nil) })(limit)
+	}
+	close(parkA)
+	select {
+	case err := <-doneA:
+		s.note(ga, 5, err, true)
+	case <-time.After(limit):
+		s.note(ga, 5, errHung, true)
+	}
+	return renderSched(rec, s, "two Pings after Close: the second finds the slot taken")
 }
